@@ -409,6 +409,9 @@ class Element(UnicodeMixin):
 
         """
         if isinstance(child, Element):
+            if child.parent is not self:
+                # not a child of this node: nothing to remove here
+                return None
             return child.detach()
         if isinstance(child, Attribute):
             self.attributes.remove(child)
